@@ -53,6 +53,11 @@ def py_valid(b):
         return False
 
 
+def trace_variant(desc, tier):
+    """Every task is run a second time with trace logging enabled (enableTrace(True) is a process-wide configuration)."""
+    return True
+
+
 def tasks(tier, seed):
     ts = [{"part": "product", "name": "product"}]
     L = 4 if tier == "quick" else 5
